@@ -46,6 +46,37 @@ CLAIMS = {
     "C19": ("Theorem unix_refines_ideal: for EVERY program the Unix model (OS transport) and the Ideal model (= in-process transport: handles are references) return the "
             "same outcome list; the same seeded programs run on the default, memfd and in-process builds must agree with each other and with both models",
             "simulation proof in Coq + three-build differential run (prog driver)"),
+    "C05": ("Theorems over Shm (objects with a size fixed by ftruncate, regions = descriptor + mapping, receivers map the fstat size, empty region = None / usize::MAX at the ipc level): "
+            "from_bytes / from_byte read back exactly, clones read the same, a received region has the same length and bytes for EVERY length incl. 0 and non-page-multiples, "
+            "contents persist when other handles are dropped, mappings and descriptors balance; shm driver over lengths around page boundaries, 1..8 regions, clone generations, "
+            "forked receivers, three builds, ftruncate/mmap lengths from the trace",
+            "Coq proofs over the shared-memory model + length/boundary sweep with trace comparison (shm driver)"),
+    "C06": ("Theorems over the RSet LTS (edge-triggered epoll ready list, concurrent senders, arbitrary schedule): no lost wake-up, select does not block while something is pending, "
+            "per-member events = its messages in send order (queued before add included) then exactly one closure when disconnected and drained, distinct ids, EINTR is a no-op; "
+            "rset driver with up to 64 members (> batch capacity), adds before/during/after traffic, EINTR injection: per-member oracle, edge-trigger discipline read off the system "
+            "calls, sequential scenarios replayed on the LTS",
+            "invariant proof over all interleavings in Coq + discipline conformance and event-order correspondence (rset driver)"),
+    "C07": ("Theorems over the Router LTS for every schedule: calls of a handler ++ queue = sent (exactly once, in order, pre-queued included), no other handler, dropped at most once and "
+            "never called afterwards, wake-ups pair 1:1 with control messages; router driver with up to 32 routes from up to 8 threads, callback and crossbeam routes, per-route log oracle, "
+            "per-handler projections compared with the LTS",
+            "invariant proof over all interleavings in Coq + per-route log correspondence (router driver)"),
+    "C08": ("Theorems over the Server LTS for every order of {create, connect, send, client exit, accept, read}: delivered ++ queued = sent per connection, accept returns the first message "
+            "of the oldest connection and is enabled as soon as it exists, names distinct and present exactly while listening, nothing left after accept or unused drop; server driver with "
+            "thread / forked / spawned clients, 1..20 messages, 200 servers at once, file-system and descriptor accounting",
+            "invariant proof in Coq + scenario correspondence and fs/fd ledger (server driver)"),
+    "C10": ("Theorems over Timed (UnixCmsg::recv's three modes with the O_NONBLOCK flag explicit): the flag is cleared again after ANY sequence of calls with any results, outcome table of "
+            "try_recv, it never blocks, 'empty' from a timed receive only after poll reported a full timeout of floor(d / 1 ms), early return on arrival or hang-up; timed driver with "
+            "sequences of the three calls against senders acting before and during the call: outcomes, elapsed time, F_SETFL pairing and poll arguments compared with the model. "
+            "Partial: elapsed wall-clock time is runtime behaviour, measured by the driver, not exhibited by the model",
+            "Coq proofs over the receive-mode state machine + trace correspondence of flag/poll calls (timed driver)"),
+    "C17": ("Theorems over the Router LTS (after the fix): Ack implies stopped, stopped is final (no call ever again, routes empty, only DropArgs of late routes possible), every callback ever "
+            "offered has been dropped exactly once when stopped, late routes never invoked, no Panic, shutdown idempotent, a thread blocked in shutdown() can always progress; router driver "
+            "with shutdown from 1..4 threads racing add_route, proxy drop, further traffic afterwards, process-wide panic hook, watchdog",
+            "invariant proof over all interleavings in Coq + stop-scenario correspondence (router driver)"),
+    "C20": ("Theorems over the Async LTS (to_stream = enqueue then wake-up, NOT atomic; routing thread phases): yielded ++ stream queue ++ kernel queue = sent for every converted channel, "
+            "streams independent, end-of-stream only after hang-up and complete delivery, a registration is never stranded (at the wait: #registrations <= wake-ups pending + in progress); "
+            "async driver (feature async) with up to 32 streams from up to 8 threads consumed by separate executors, watchdog for lost wake-ups",
+            "invariant proof over all interleavings in Coq + stream-content correspondence (async driver)"),
 }
 NOT_YET = "check not built yet in this round (planned, see DESIGN.md section 6)"
 
